@@ -2,6 +2,8 @@
 import math
 from datetime import datetime
 
+import numpy as np
+
 from tradingenv.contracts import ETF, ES, ZN, Cash
 from tradingenv.broker.broker import Broker
 from tradingenv.broker.trade import Trade
@@ -26,7 +28,7 @@ RULE = ("Rebalancing.make_trades on generated (holdings, targets, quotes, thresh
 ASSUMPTIONS = ["ties within 1e-12 relative of the threshold / 1e-9 of an integer lot accept both outcomes",
                "whole-lot mode: the threshold is compared with the weight of the imbalance itself (untruncated), as the property words it"]
 REQUIRED = ["C12:exact-threshold", "C12:trade-set", "C12:trade-wellformed", "C12:fractional-quantity", "C12:whole-lot-truncation", "C12:no-exception"]
-REQUIRED_CATS = ["whole-lot-with-fractional-holding", "mode:tiny", "mode:exact-at", "mode:exact-notch-below", "mode:exact-notch-above", "mode:at", "mode:below", "mode:above", "mode:sublot", "mode:absent-held", "whole-lot", "fractional"]
+REQUIRED_CATS = ["via-portfolio-space", "whole-lot-with-fractional-holding", "mode:tiny", "mode:exact-at", "mode:exact-notch-below", "mode:exact-notch-above", "mode:at", "mode:below", "mode:above", "mode:sublot", "mode:absent-held", "whole-lot", "fractional"]
 REQUIRED_HITS = ["Rebalancing.make_trades"]
 TECHNIQUE = "runtime monitoring: reference model of the stated filtering rule compared with Rebalancing.make_trades on boundary-biased inputs"
 LEVEL_TEXT = ("Exploration with boundary-biased generation: the real make_trades is compared with an independent evaluation of the "
@@ -152,7 +154,14 @@ def case(ctx, i, tier):
     for m in modes.values():
         ctx.cat("mode:" + m)
     ctx.cat("whole-lot" if not frac else "fractional", "measure:" + measure, "thr:{}".format(thr))
-    r = Rebalancing(keys, tgt, measure=measure, fractional=frac, margin=thr, time=t)
+    if rng.random() < 0.3:
+        # the request is built by the action space (as TradingEnv.step does), not by hand
+        from tradingenv.spaces import BoxPortfolio
+        space = BoxPortfolio(keys, -1e12, 1e12, as_weights=(measure == "weight"), fractional=frac, margin=thr)
+        r = space.make_rebalancing_request(np.array(tgt, dtype=float), t, b)
+        ctx.cat("via-portfolio-space")
+    else:
+        r = Rebalancing(keys, tgt, measure=measure, fractional=frac, margin=thr, time=t)
     ctx.sample = {"contracts": [gen.describe_contract(c) for c in cs], "quotes": {c.symbol: q[c] for c in cs},
                   "holdings": {c.symbol: hold.get(c, 0.0) for c in cs}, "nlv": nlv, "threshold": thr, "measure": measure,
                   "fractional": frac, "targets": {k.symbol: v for k, v in zip(keys, tgt)}, "modes": {c.symbol: m for c, m in modes.items()}}
